@@ -60,6 +60,9 @@ def random_case(rng, tier):
                 crashes[str(boundary)] = 2 if rng.random() < 0.15 else 1
     media = [rng.choice(persist.MEDIA) for _ in range(3)]
     case = {'program': program, 'crashes': crashes, 'media': media, 'loader': rng.choice(['default', 'default', 'custom'])}
+    for number, step in enumerate(program['steps']):
+        if step['ret']['t'] == 'continue' and rng.random() < 0.3:
+            step['ret']['token'] = number  # an argument with identity
     if rng.random() < 0.3:
         # steps that work on their arguments in place; checkpoints kept as Bundle objects or in the bundled persisters; the
         # instance runs on for a few boundaries after its checkpoint before it is lost
@@ -170,6 +173,13 @@ def _oracle(runner, proc, result, case):
     result.counters['unsavable_points'] += runner.unsavable
     result.nontrivial = len(want) >= 2 and any(w[1] or w[2] for w in want)
 
+    tokens = [e for e in events if e[0] == 'token']
+    if tokens:
+        result.counters['probe:argument_with_identity'] += 1
+        if runner.restores == 0 and not all(e[4] for e in tokens):
+            bad = next(e for e in tokens if not e[4])
+            result.violate('continuation_args', 'identity', f'{bad[2]} received a copy of the object handed to Continue, not '
+                                                            f'the object itself (no checkpoint in between)')
     for index, (mine, theirs) in enumerate(zip(got, want)):
         if mine[0] != theirs[0]:
             result.violate('step_sequence', 'order', f'step #{index} is {mine[0]}, the commands denote {theirs[0]}')
